@@ -286,7 +286,12 @@ def _gen_for(stream, seed):
             big1, big2 = copy.deepcopy(rebs[-1]), copy.deepcopy(rebs[-1])
             big1["occ"], big1["dur"], big1["rebuild_tau"] = 1, 1, r4.choice([10, 30])
             big2["occ"], big2["dur"], big2["rebuild_tau"] = 2, 1, r4.choice([5, 20])
-            big2["impact"] = {k: v * 0.5 for k, v in big2["impact"].items()}
+            # (small enough not to ration the rebuilding sectors: the two tiny events are then served in full and finish together)
+            big1["impact"] = {k: v * 0.05 for k, v in big1["impact"].items()}
+            big2["impact"] = {k: v * 0.02 for k, v in big2["impact"].items()}
+            for b__ in (big1, big2):
+                if b__.get("house"):
+                    b__["house"] = {k: v * 0.02 for k, v in b__["house"].items()}
             sc["events"] = [a_, b_, big1, big2]
         sc["stream"] = "finishing"
         return sc
